@@ -36,7 +36,8 @@ EXPLANATION = (
     'functions agree on handling None (end of input). R5: every InvalidSpec(...) has a message '
     'and location arguments; cli.main converts InvalidSpec to `path:line: error: msg` and '
     'exit 1. Frontend asserts about internal invariants are listed, not judged.'
-    ' RD (decision drift, stonelint.conddrift): the tests of the functions this property is anchored in (stonelint.ownership) are compared with reference/conditions.json; a relation, polarity or connective changed over the same operands, or an operand purely added or dropped, is a violation; re-spellings and new or removed tests are not claimed.')
+    ' RD (decision drift, stonelint.conddrift): the tests of the functions this property is anchored in (stonelint.ownership) are compared with reference/conditions.json; a relation, polarity or connective changed over the same operands, or an operand purely added or dropped, is a violation; re-spellings and new or removed tests are not claimed.'
+    " RE (expression drift, stonelint.exprdrift): the same functions' attribute names, variable reads, simple statements, calls and arithmetic/slice literals are compared with reference/expressions.json; a substituted attribute or variable, a dropped call or assignment, swapped arguments or a changed literal is a violation; any other edit is not claimed.")
 ASSUMPTIONS = [
     'the kinds of values stored in an Environment are the six store sites of ir_generator plus '
     'the built-in type classes of default_env (re-checked every run; a new store kind is an '
@@ -283,6 +284,8 @@ def run(pm, ctx):
     from ..conddrift import run_decisions
     from ..ownership import OWN
     run_decisions(pm, ctx, 'C03-RD', OWN['C03'])
+    from .. import exprdrift
+    exprdrift.run(pm, ctx, 'C03-RE', OWN['C03'])
 
 
 def construct(site):
